@@ -11,7 +11,7 @@ meta = json.load(open(out + '/meta.json'))
 import re
 meta['build_cmd'] = re.sub(r'&&\s*(\./|/tmp/mut/\S*/)demo\s*$', '', meta['build_cmd'])
 def sh(c, cwd=None):
-    r = subprocess.run(c, shell=True, cwd=cwd, capture_output=True, text=True)
+    r = subprocess.run(c, shell=True, cwd=cwd, capture_output=True, text=True, errors='replace')
     return r.returncode, (r.stdout + r.stderr)[-600:]
 res = {}
 rc, o = sh('cmake --build _build 2>&1 | tail -1 && ./_build/igris_test | tail -2', wt)
